@@ -33,7 +33,7 @@ CONSTANTS Models,      \* model names offered by Next
           Coords,      \* coordinates offered to Place / MoveTo / queries
           Deltas,      \* deltas offered to Move
           Leeways,     \* leeways offered to AgentsAt
-          Deviations,  \* which unsanctioned operations Next offers: subset of {"F1","F3","F6"}
+          Deviations,  \* which unsanctioned operations Next offers: subset of {"F1","F3","F6","RAW"}
           Guests,      \* Next also lets an agent built for one model join the environment of another
           Variants     \* {"mech"} for the exhaustive runs (the code); the trace spec also allows "ideal"
 
@@ -241,6 +241,30 @@ RegisterRejected(a, T) ==          \* KeyError: already registered
     /\ <<a, SerialIn(agents, a, T)>> \in Range(pool[HomeOf(a)][T])
     /\ UNCHANGED vars
 
+\* SystemManager.register_component(c) / deregister_component(c) on their own: the low-level listing API.  The
+\* owner need not be resident and the component need not be attached; s is the component's serial.
+RegisterRaw(m, a, T, s) ==
+    /\ m \in DOMAIN world /\ a \in DOMAIN agents
+    /\ <<a, s>> \notin Range(pool[m][T])
+    /\ LET P2 == [pool[m] EXCEPT ![T] = Append(@, <<a, s>>)]
+       IN pool' = [pool EXCEPT ![m] = P2] /\ dev' = DevAfter(m, P2, env, agents, "RAW")
+    /\ UNCHANGED <<world, agents, env, pos>>
+
+RegisterRawRejected(m, a, T, s) == \* KeyError: already registered
+    /\ m \in DOMAIN world /\ <<a, s>> \in Range(pool[m][T])
+    /\ UNCHANGED vars
+
+DeregisterRaw(m, a, T, s) ==
+    /\ m \in DOMAIN world /\ a \in DOMAIN agents
+    /\ <<a, s>> \in Range(pool[m][T])
+    /\ LET P2 == [pool[m] EXCEPT ![T] = Without(@, <<a, s>>)]
+       IN pool' = [pool EXCEPT ![m] = P2] /\ dev' = DevAfter(m, P2, env, agents, "RAW")
+    /\ UNCHANGED <<world, agents, env, pos>>
+
+DeregisterRawRejected(m, a, T, s) == \* KeyError: never registered
+    /\ m \in DOMAIN world /\ <<a, s>> \notin Range(pool[m][T])
+    /\ UNCHANGED vars
+
 (***************************************************************************)
 (* Spatial operations.                                                     *)
 (***************************************************************************)
@@ -345,6 +369,13 @@ OfferDetach(a, T, dereg, v) ==
     /\ (Resident(a) /\ ~dereg) => "F3" \in Deviations
     /\ Detach(a, T, dereg, v)
 OfferMove(a, d) == Move(a, d, <<0, 0, 0>>)
+\* the low-level calls are offered for components an agent carries (of its own model's listings)
+OfferRegisterRaw(a, T) ==
+    /\ "RAW" \in Deviations /\ a \in DOMAIN agents /\ HasType(a, T)
+    /\ RegisterRaw(agents[a].model, a, T, SerialIn(agents, a, T))
+OfferDeregisterRaw(a, T) ==
+    /\ "RAW" \in Deviations /\ a \in DOMAIN agents /\ HasType(a, T)
+    /\ DeregisterRaw(agents[a].model, a, T, SerialIn(agents, a, T))
 
 Next ==
     \/ \E m \in Models, w \in WorldKinds : NewModel(m, w)
@@ -360,6 +391,8 @@ Next ==
     \/ \E a \in AgentObjs, T \in Types : DetachRejected(a, T)
     \/ \E a \in AgentObjs, T \in Types, v \in Variants : RegisterManual(a, T, v)
     \/ \E a \in AgentObjs, T \in Types : RegisterRejected(a, T)
+    \/ \E a \in AgentObjs, T \in Types : OfferRegisterRaw(a, T)
+    \/ \E a \in AgentObjs, T \in Types : OfferDeregisterRaw(a, T)
     \/ \E a \in AgentObjs, d \in Triple(Deltas) : OfferMove(a, d)
     \/ \E a \in AgentObjs : MoveRejected(a)
     \/ \E a \in AgentObjs, p \in Triple(Coords) : MoveTo(a, p)
